@@ -166,6 +166,9 @@ epochLoop:
 			if err != nil {
 				return nil, fmt.Errorf("error while reading linked log with next=%v: %w", next, err)
 			}
+			if err := checkChainGoesBackwards(*next, newNext); err != nil {
+				return nil, err
+			}
 			klog.V(5).Infof("ReadWithSize took %s to get %d locs", time.Since(startedReadAt), len(locations))
 			if len(locations) == 0 {
 				continue epochLoop
@@ -270,6 +273,9 @@ epochLoop:
 			locations, newNext, err := index.ll.ReadWithSize(next.Offset, next.Size)
 			if err != nil {
 				return nil, fmt.Errorf("error while reading linked log with next=%v: %w", next, err)
+			}
+			if err := checkChainGoesBackwards(*next, newNext); err != nil {
+				return nil, err
 			}
 			klog.V(5).Infof("ReadWithSize took %s to get %d locs", time.Since(startedReadAt), len(locations))
 			if len(locations) == 0 {
